@@ -194,6 +194,17 @@ def is_none(x):
     return x is None
 
 
+class _Skip:
+    """Returned by a clause that does not apply in the current mode (e.g. a clause that is only meaningful on real
+    objects): the clause then generates NO obligation (it is not counted as discharged)."""
+
+    def __repr__(self):
+        return "SKIP"
+
+
+SKIP = _Skip()
+
+
 class Case:
     """One function under contract with one input configuration.
 
